@@ -115,13 +115,20 @@ func (c *Ctx) PeerGate(prop string) {
 						return false, "the sender id comes from " + Fn(W) + ", which is not of the form (id, known)", nil
 					}
 					nTrue := 0
+					errForm := isErrorType(W.Signature.Results().At(1).Type()) // (id, error): known <=> the error is nil
 					for _, ret := range an.Returns(W) {
-						k, isK := an.Result(ret, 1).(*ssa.Const)
-						if !isK {
-							return false, "the wrapper " + Fn(W) + " returns a computed 'known' flag", nil
-						}
-						if an.Term(k) != "true" {
-							continue
+						if errForm {
+							if !isNilConst(unwrapErr(an.Result(ret, 1))) {
+								continue
+							}
+						} else {
+							k, isK := an.Result(ret, 1).(*ssa.Const)
+							if !isK {
+								return false, "the wrapper " + Fn(W) + " returns a computed 'known' flag", nil
+							}
+							if an.Term(k) != "true" {
+								continue
+							}
 						}
 						nTrue++
 						idCall2, ok := an.Result(ret, 0).(*ssa.Call)
@@ -153,7 +160,15 @@ func (c *Ctx) PeerGate(prop string) {
 						}
 					}
 					x, path := an.Cut(an.CutQuery{From: an.Entry(fn), Target: func(i ssa.Instruction) bool { return i == site },
-						AcceptEdge: func(b *ssa.BasicBlock, i int, a *an.Atom) bool { return a != nil && a.Op == "true" && known != nil && a.LV == known }})
+						AcceptEdge: func(b *ssa.BasicBlock, i int, a *an.Atom) bool {
+							if a == nil || known == nil {
+								return false
+							}
+							if errForm {
+								return a.Op == "==" && ((a.LV == known && isNilConst(a.RV)) || (a.RV == known && isNilConst(a.LV)))
+							}
+							return a.Op == "true" && a.LV == known
+						}})
 					if x != nil {
 						return false, "reachable although the caller is not a configured peer (the wrapper's 'known' flag is not tested)", an.PathString(c.Pos, path)
 					}
